@@ -103,6 +103,7 @@ func TestVerifConfConfig(t *testing.T) {
 		{name: "f", execOnSync: "true", keep: "true", group: "g1"},
 		{name: "g", group: "g1", include: []string{"a"}},
 		{name: "h", group: "g2"},
+		{group: "g2"}, // unnamed and grouped: the group's snapshot list names it `kubernetes`
 		{name: "i", watch: []string{"Deleted"}},
 		{name: "j", events: []string{}, watch: []string{"Modified"}},
 		{name: "k", events: []string{"Added"}, watch: []string{"Deleted", "Modified"}},
@@ -267,5 +268,5 @@ func TestVerifConfConfig(t *testing.T) {
 			report("config-panic", fnLoad, fmt.Sprintf("input %q: panic %v", g, p))
 		}
 	}
-	fmt.Printf("CONF-STATS evaluated=%d scope=real LoadAndValidate on generated documents as JSON and as YAML: every set of 1-2 (and three larger) kubernetes bindings out of 13 variants (name, queue, allowFailure, executeHookOnEvent absent/[Added]/[] alone and combined with the legacy watchEvent, executeHookOnSynchronization, keepFullObjectsInMemory, groups, includeSnapshotsFrom) plus two schedules and onStartup: validity, JSON = YAML, declared order, documented defaults, group snapshots; 13 documents that must be rejected; 15 malformed inputs that must not panic\n", evaluated)
+	fmt.Printf("CONF-STATS evaluated=%d scope=real LoadAndValidate on generated documents as JSON and as YAML: every set of 1-2 (and three larger) kubernetes bindings out of 14 variants (name, queue, allowFailure, executeHookOnEvent absent/[Added]/[] alone and combined with the legacy watchEvent, executeHookOnSynchronization, keepFullObjectsInMemory, groups, includeSnapshotsFrom) plus two schedules and onStartup: validity, JSON = YAML, declared order, documented defaults, group snapshots; 13 documents that must be rejected; 15 malformed inputs that must not panic\n", evaluated)
 }
